@@ -205,6 +205,39 @@ static void pins_phase() {
             delete r; });
         ctx.done_case(); }
 }
+// Symmetry of PIN CHOICE: a square shape centred at the origin (every symmetry maps it onto itself) with two pins of one class -- any two of
+// twelve side positions, each looking out of its side, the second one dearer (connection cost 100) -- a connector from the pin class to a free grid
+// point (the grid contains the pins' diagonals), portDirectionPenalty 0 or 200.  The pins' positions and directions are mapped with the scene;
+// the route's cost (length + 50 per bend for orthogonal, + the connection cost of the pin used) must not change.
+static void pin_symmetry_phase(bool ortho, double portPen, int step) {
+    ctx.phase(mcx::fmt("pin choice under the eight symmetries: %s, square shape with two pins of one class (12 side positions each, second pin dearer), portDirectionPenalty=%g, every %d-th (pin pair, target)", ortho ? "orthogonal" : "polyline", portPen, step));
+    struct PinDef { double fx, fy; unsigned dir; }; vector<PinDef> PD;
+    for (double t : {0.25, 0.5, 0.75}) { PD.push_back({t, 0, 1u}); PD.push_back({t, 1, 2u}); PD.push_back({0, t, 4u}); PD.push_back({1, t, 8u}); }   // top (Up), bottom (Down), left, right
+    vector<pair<int, int>> targets; for (int x = -50; x <= 50; x += 10) for (int y = -50; y <= 50; y += 10) if (abs(x) > 20 || abs(y) > 20) targets.push_back({x, y});   // multiples of 10, like the pins (inside offset 10): the diagonals through every pin are on the grid
+    auto run = [&](int k, const PinDef &A, const PinDef &B, pair<int, int> T, Sig &out) {
+        Avoid::Router *r = new Avoid::Router(ortho ? Avoid::OrthogonalRouting : Avoid::PolyLineRouting); r->setRoutingParameter(Avoid::segmentPenalty, ortho ? 50 : 0); r->setRoutingParameter(Avoid::portDirectionPenalty, portPen);
+        Avoid::Rectangle rc(Avoid::Point(-20, -20), Avoid::Point(20, 20)); Avoid::ShapeRef *sh = new Avoid::ShapeRef(r, rc);
+        double pinx[2], piny[2]; int q = 0;
+        for (const PinDef *pd : {&A, &B}) { double vx, vy; sym(k, pd->fx - 0.5, pd->fy - 0.5, vx, vy); Avoid::ShapeConnectionPin *pin = new Avoid::ShapeConnectionPin(sh, 1, vx + 0.5, vy + 0.5, true, 10, (Avoid::ConnDirFlags)symdir(k, pd->dir)); pin->setExclusive(false); if (q == 1) pin->setConnectionCost(100); pinx[q] = pin->position().x; piny[q] = pin->position().y; q++; }   // inside offset 10: a pin exactly on the border is KF-C11-1's degenerate class (routes run along the border)
+        double tx, ty; sym(k, T.first, T.second, tx, ty);
+        Avoid::ConnRef *c = new Avoid::ConnRef(r, Avoid::ConnEnd(sh, 1), Avoid::ConnEnd(Avoid::Point(tx, ty))); r->processTransaction();
+        const Avoid::PolyLine &d = ortho ? c->route() : c->displayRoute(); double l = 0; int b = 0;
+        for (size_t i = 1; i < d.size(); i++) l += ortho ? fabs(d.ps[i].x - d.ps[i - 1].x) + fabs(d.ps[i].y - d.ps[i - 1].y) : hypot(d.ps[i].x - d.ps[i - 1].x, d.ps[i].y - d.ps[i - 1].y);
+        for (size_t i = 2; i < d.size(); i++) { bool col = (d.ps[i - 2].x == d.ps[i - 1].x && d.ps[i - 1].x == d.ps[i].x) || (d.ps[i - 2].y == d.ps[i - 1].y && d.ps[i - 1].y == d.ps[i].y); if (!col) b++; }
+        int used = -1; if (d.size() >= 1) for (int w = 0; w < 2; w++) if (fabs(d.ps[0].x - pinx[w]) < 1e-9 && fabs(d.ps[0].y - piny[w]) < 1e-9) { used = w; break; }
+        out.add(l + (ortho ? 50 * b : 0) + (used == 1 ? 100 : 0)); out.add(used);
+        delete r; };
+    size_t cnt = 0;
+    for (size_t a = 0; a < PD.size(); a++) for (size_t b2 = 0; b2 < PD.size(); b2++) for (auto &T : targets) { if (a == b2) continue; /* coincident pins of one class: which one is used is not defined */ if ((cnt++ % step) != 0) continue; if (!ctx.next()) continue; ctx.count("states");
+        string desc = mcx::fmt("%s portDirectionPenalty=%g shape [-20,20]^2 pins A(%g,%g dir %u, cost 0) B(%g,%g dir %u, cost 100) connector pin class -> (%d,%d)", ortho ? "orthogonal" : "polyline", portPen, PD[a].fx, PD[a].fy, PD[a].dir, PD[b2].fx, PD[b2].fy, PD[b2].dir, T.first, T.second);
+        ctx.sample(desc, 1); ctx.announce(desc);
+        static Sig base, tr; plain([&](Sig &s2) { run(0, PD[a], PD[b2], T, s2); }, base);
+        { double ax = (PD[a].fx - 0.5) * 40, ay = (PD[a].fy - 0.5) * 40; ax += PD[a].fx == 0 ? 10 : PD[a].fx == 1 ? -10 : 0; ay += PD[a].fy == 0 ? 10 : PD[a].fy == 1 ? -10 : 0; if (fabs(fabs(T.first - ax) - fabs(T.second - ay)) < 1e-9) ctx.count("nontrivial"); }   // the target lies on a diagonal of the cheap pin: the border between two direction quadrants
+        for (int k = 1; k < 8; k++) { plain([&](Sig &s2) { run(k, PD[a], PD[b2], T, s2); }, tr); ctx.count("transitions"); ctx.count("evaluations");
+            if (base.aborted || tr.aborted) { if (base.aborted != tr.aborted) ctx.violation("route_cost_not_symmetry_invariant", {"pin_choice", "assertion_in_one_frame_only"}, desc + mcx::fmt(" symmetry #%d", k), "an assertion failed in one frame only"); continue; }
+            if (!(fabs(base.v[0] - tr.v[0]) <= 1e-9)) { ctx.violation("route_cost_not_symmetry_invariant", {"pin_choice"}, desc + mcx::fmt(" symmetry #%d", k), mcx::fmt("cost %.17g (pin %c) vs %.17g (pin %c)", base.v[0], base.v[1] == 0 ? 'A' : base.v[1] == 1 ? 'B' : '?', tr.v[0], tr.v[1] == 0 ? 'A' : tr.v[1] == 1 ? 'B' : '?')); break; } }
+        ctx.done_case(); }
+}
 // ---- libcola -------------------------------------------------------------------------------
 static void cola_phase(int step) {
     ctx.phase(mcx::fmt("ConstrainedFDLayout n=3 with constraints and overlap avoidance, connected and DISCONNECTED edge sets {0-1 1-2; 0-1; none}: 4 heap schedules incl. dirty memory (positions to 1e-9), every %d-th placement", step));
@@ -244,6 +277,7 @@ int main(int argc, char **argv) {
     g_interleave = true; routing_phase(3, 1, false); routing_phase(3, 1, true); g_interleave = T; routing_phase(3, 2, false); routing_phase(4, 2, true); g_interleave = false;
     for (int ps = 4; ps <= 7; ps++) { routing_phase(3, 1, true, ps); routing_phase(3, 2, true, ps); } g_srcDir = 15;   // (two-direction masks are not in the alphabet: Down|Left is routed differently from its half turn Up|Right on the unchanged tree, the direction-restricted sub-optimality of KF-C05-1..3)
     for (int ps = 1; ps <= 3; ps++) { routing_phase(3, 1, true, ps); routing_phase(3, 1, false, ps); routing_phase(3, 2, true, ps); routing_phase(3, 2, false, ps); } g_params = 0;
+    for (int o = 0; o < 2; o++) for (double pp : {200.0, 0.0}) pin_symmetry_phase(o, pp, T ? 1 : (pp > 0 ? 3 : 7));
     g_interleave = true; pins_phase(); cola_phase(T ? 1 : 9); hola_phase(3); g_interleave = T; hola_phase(4); g_interleave = false;
     if (T) { for (int ps = 1; ps <= 2; ps++) routing_phase(4, 2, true, ps); g_params = 0; vpsc_phase(3, 3); ro_phase(4, 2); routing_phase(4, 1, false); routing_phase(4, 2, false); hola_phase(5); }
     return ctx.finish();
